@@ -61,9 +61,22 @@ def make_agg(spec, dtype):
     if k == "probe":
         return Probe(torch.tensor([float(x) for x in spec[1]], dtype=dtype))
     if k == "sub":
+        if len(spec[1]) % 2:
+            # ... or a plain Constant carrying a forward hook (nn.Module protocol): calling the aggregator runs the hook
+            A = Constant(torch.tensor([float(x) for x in spec[1]], dtype=dtype))
+            A.register_forward_hook(lambda mod, args, out: 2 * out)
+            return A
         return TwiceConstant(torch.tensor([float(x) for x in spec[1]], dtype=dtype))
     if k == "badlen":
         return BadLen(spec[1])
+    if k == "random":
+        # the library's stochastic weighting under a fixed seed (seeded here: the caller builds the aggregator in the argument
+        # list of the call, nothing random happens in between)
+        from torchjd.aggregation import Random
+        torch.manual_seed(spec[1])
+        return Random()
+    if k == "constf":
+        return Constant(torch.tensor([float(x) for x in spec[1]], dtype=dtype))
     raise AssertionError(spec)
 
 
@@ -80,7 +93,9 @@ def grads_of(ts, report):
     out = {}
     for k in report:
         g = ts[k].grad
-        out[k] = None if g is None else [Fraction(x) for x in g.detach().double().reshape(-1).tolist()]
+        # (a non-finite entry stays a float: it equals no model value and is reported, not a crash of the harness)
+        out[k] = None if g is None else [Fraction(x) if x == x and abs(x) != float("inf") else x
+                                         for x in g.detach().double().reshape(-1).tolist()]
     return out
 
 
@@ -119,21 +134,38 @@ def grad_mode():
     return contextlib.nullcontext()
 
 
+def as_count(chunk):
+    """`parallel_chunk_size: int | None` — the integer may come from a numpy hyper-parameter grid or be a 0-d tensor: every
+    3rd explicit chunk size is handed over as `numpy.int64`, every 4th as a 0-d integer tensor (same value, same meaning)"""
+    if chunk is None:
+        return None
+    _CALLS[0] += 1
+    if _CALLS[0] % 3 == 0:
+        import numpy as np
+        return np.int64(chunk)
+    if _CALLS[0] % 4 == 0:
+        return torch.tensor(chunk)
+    return chunk
+
+
 def real_backward(P: Program, dtype, tensors, inputs, agg, chunk, retain, pre, report, ts=None, freeze=(),
-                  inputs_kind="list", tensors_kind="list"):
+                  inputs_kind="list", tensors_kind="list", hooks=None):
     """freeze: leaves switched to requires_grad=False AFTER the forward pass (they are still in the graph);
     inputs_kind / tensors_kind: which kind of Iterable / Sequence the arguments are passed as"""
     ts = ts if ts is not None else P.build(dtype)
     set_pre(P, ts, pre, dtype)
     for i in freeze:
         ts[i].requires_grad_(False)
+    for i, f in (hooks or {}).items():
+        # a gradient hook on a leaf (the per-layer learning-rate multiplier idiom): it acts ONCE on what flows into the leaf
+        ts[i].register_hook(lambda g, f=f: g * f)
     err = None
     try:
         ins_ = inputs if inputs is not None else sorted(P.reach_leaves(tensors))
         with grad_mode():
             backward(as_iterable(tensors_kind, [ts[i] for i in tensors]), make_agg(agg, jac_dtype(ts, ins_, dtype)),
                      inputs=None if inputs is None else as_iterable(inputs_kind, [ts[i] for i in inputs]),
-                     retain_graph=retain, parallel_chunk_size=chunk)
+                     retain_graph=retain, parallel_chunk_size=as_count(chunk))
     except Exception as e:  # noqa: BLE001
         err = classify_exc(e)
     return err, grads_of(ts, report), ts
@@ -155,7 +187,7 @@ def real_mtl(P: Program, dtype, losses, features, tasks, shared, agg, chunk, ret
             mtl_backward([ts[i] for i in losses], [ts[i] for i in features], make_agg(agg, jac_dtype(ts, sh_, dtype)),
                          tasks_params=None if tasks is None else [wrap([ts[i] for i in tp]) for tp in tasks],
                          shared_params=None if shared is None else wrap([ts[i] for i in shared]),
-                         retain_graph=retain, parallel_chunk_size=chunk)
+                         retain_graph=retain, parallel_chunk_size=as_count(chunk))
     except Exception as e:  # noqa: BLE001
         err = classify_exc(e)
     return err, grads_of(ts, report), ts
